@@ -1,6 +1,6 @@
 ---------------------------- MODULE IsaMsp430_Gen ----------------------------
 EXTENDS IsaMsp430
-CONSTANTS Cpu, K, Salt
+CONSTANTS Cpu, K, Salt, Step
 VARIABLES form, ops, pc
 INSTANCE IsaGen
 ASSUME \A f \in Forms : FormWellFormed(f, UnitBits)
